@@ -228,6 +228,9 @@ def run_shard(spec, tier, seed):
                 cellkey = f"{op.name}|{dim}|{R.sysname(s_self)}|{R.sysname(s_other) if s_other else '-'}|{order or '-'}"
                 try:
                     got = E.eval_mp(op, self_l, args)
+                except R.NotRepresentable:
+                    res.count("skip_result_not_representable")  # the monitor's own readout (zero vector in theta / eta storage)
+                    continue
                 except Exception as e:
                     res.violation(f"C02/exception op={op.name} dim={dim} backend=mp",
                                   {"cell": cellkey, "exc": f"{type(e).__name__}: {e}"[:300],
@@ -274,6 +277,9 @@ def run_shard(spec, tier, seed):
                     res.evaluations += 1
                     try:
                         got = E.eval_obj(op, self_l, args)
+                    except R.NotRepresentable:
+                        res.count("skip_result_not_representable")  # the monitor's own readout (zero vector in theta / eta storage)
+                        continue
                     except Exception as e:
                         res.violation(f"C02/exception op={op.name} dim={dim} backend=object",
                                       {"cell": cellkey, "exc": f"{type(e).__name__}: {e}"[:300],
@@ -336,6 +342,9 @@ def run_shard(spec, tier, seed):
                     res.count("integer_operand_reference_not_evaluated:" + type(e).__name__)
                 try:
                     gots, _, _ = E.eval_numpy(op, [c[1] for c in cases], [c[2] for c in cases])
+                except R.NotRepresentable:
+                    res.count("skip_result_not_representable")  # the monitor's own readout (zero vector in theta / eta storage)
+                    continue
                 except Exception as e:
                     res.violation(f"C02/exception op={op.name} dim={dim} backend=numpy",
                                   {"cell": cellkey, "exc": f"{type(e).__name__}: {e}"[:300],
